@@ -2,7 +2,8 @@
    body (hy_newton_step: residual of the current reduced density y, clamped Newton update) and its result expression
    (hy_zfact) are regenerated from gas.py on every run, and the loop is modelled here with explicit fuel.
    Proved: the clamped update keeps y strictly inside (0, 1) whatever the Newton step does (so no negative base ever
-   reaches the fractional power - the defect repaired in c82a443), and whenever the loop exits it returns a y in (0,1)
+   reaches the fractional power - the defect repaired in c82a443), an upward step covers at most half of the distance to 1 (so
+   the iterate cannot land on the last float below 1, where the iteration used to stall for ever - the second repair), and whenever the loop exits it returns a y in (0,1)
    that is one update past a density whose residual is at most 0.001; the returned Z is then positive.
    Not proved: that the loop exits (Newton iteration) and the few-percent agreement with DAK - both validated on a grid. *)
 From Coq Require Import Reals Lra.
@@ -14,10 +15,20 @@ Theorem C06_hy_update_keeps_density_in_unit_interval : forall p t y, 0 < y < 1 -
   0 < snd (hy_newton_step p t y) < 1.
 Proof.
   intros p t y Hy. unfold hy_newton_step. cbv zeta. cbn [snd].
-  match goal with |- context [Rle_dec 1 ?v] => generalize v end. intros yn.
-  destruct (Rle_dec 1 yn); [lra|]. destruct (Rle_dec yn 0); lra.
+  match goal with |- context [Rlt_dec ((y + 1) / 2) ?v] => generalize v end. intros yn.
+  destruct (Rlt_dec ((y + 1) / 2) yn); [lra|]. destruct (Rle_dec yn 0); lra.
 Qed.
 Print Assumptions C06_hy_update_keeps_density_in_unit_interval.
+
+(* an upward step never covers more than half of the distance to 1: after k steps from y the iterate is at most 1 - (1-y)/2^k *)
+Theorem C06_hy_update_moves_at_most_half_way_up : forall p t y, 0 < y < 1 ->
+  1 - snd (hy_newton_step p t y) >= (1 - y) / 2.
+Proof.
+  intros p t y Hy. unfold hy_newton_step. cbv zeta. cbn [snd].
+  match goal with |- context [Rlt_dec ((y + 1) / 2) ?v] => generalize v end. intros yn.
+  destruct (Rlt_dec ((y + 1) / 2) yn) as [H|H]; [lra|]. destruct (Rle_dec yn 0); lra.
+Qed.
+Print Assumptions C06_hy_update_moves_at_most_half_way_up.
 
 (* the two components of the step, as used by the certified evaluations of the implementation's own iterates *)
 Theorem C06_hy_step_components : forall p t y,
